@@ -197,15 +197,32 @@ func runC08(c *Ctx) {
 				// detached idiom: element of the local slice built while holding the lock, each appended
 				// bucket deleted from m.buckets in the same locked loop
 				if fname(fn) == "expirationMap.cleanup" && kind == "read" && strings.HasPrefix(mt.String(), "idx(phi") {
+					// every bucket read out of the index is deleted from it, in the same critical section,
+					// before this unlocked iteration can start
 					dels := builtinCalls(fn, "delete")
-					ok := false
-					for _, d := range dels {
-						if Match("fld[buckets](p[0])", tb.T(d.Call.Args[0]), nil) && lc.At(d).HasClass("expirationMap.RWMutex", "W") {
-							ok = true
+					lks := lookupsOf(fn, tb, "fld[buckets](p[0])")
+					ok := len(lks) > 0
+					for _, lk := range lks {
+						var del *ssa.Call
+						for _, d := range dels {
+							if Match("fld[buckets](p[0])", tb.T(d.Call.Args[0]), nil) && d.Call.Args[1] == lk.Index && lc.At(d).HasClass("expirationMap.RWMutex", "W") {
+								del = d
+							}
+						}
+						if del == nil {
+							ok = false
+							continue
+						}
+						isUnlock := func(x ssa.Instruction) bool {
+							cl, isCall := x.(*ssa.Call)
+							return isCall && strings.HasSuffix(calleeName(&cl.Call), "Mutex.Unlock")
+						}
+						if r, _ := reach(after(lk), func(x ssa.Instruction) bool { return x == in || isReturn(x) || isUnlock(x) }, isInstr(del), nil); r != nil {
+							ok = false
 						}
 					}
 					if ok {
-						L.Ok("R-C08-GUARD", cons, "bucket ranged after it was removed from the index under the lock (detach idiom)", in.Pos())
+						L.Ok("R-C08-GUARD", cons, "bucket ranged only after it was removed from the index, in the critical section that read it out (detach idiom)", in.Pos())
 						return
 					}
 				}
@@ -742,134 +759,7 @@ func runC08(c *Ctx) {
 	handshakeRule(c, "R-C08-HANDSHAKE")
 
 	// ---- R-C08-RING
-	c.Group("R-C08-RING", "ringBuffer.Push", func() {
-		fn := P.Fn("ristretto", "ringBuffer", "Push")
-		L.Analysed(fname(fn))
-		gets := callsTo(fn, "sync.Pool.Get")
-		puts := callsTo(fn, "sync.Pool.Put")
-		if len(gets) != 1 || len(puts) < 1 {
-			L.Fail("R-C08-RING", "ringBuffer.Push", "stripe is not taken from and returned to the pool", fn.Pos())
-			return
-		}
-		tb := newTB(fn)
-		isPut := func(in ssa.Instruction) bool {
-			cl, ok := in.(*ssa.Call)
-			return ok && calleeName(&cl.Call) == "sync.Pool.Put" && Contains(tb.T(cl.Call.Args[1]), tb.T(gets[0].(*ssa.Call)))
-		}
-		bad, _ := mustPass(after(gets[0].(ssa.Instruction)), isPut, nil)
-		if bad != nil {
-			L.Fail("R-C08-RING", "ringBuffer.Push", "a path returns without putting the stripe back", instrPos(bad))
-			return
-		}
-		// the stripe does not escape elsewhere
-		esc := false
-		eachInstr(fn, func(in ssa.Instruction) {
-			switch x := in.(type) {
-			case *ssa.Store:
-				if Contains(tb.T(x.Val), tb.T(gets[0].(*ssa.Call))) {
-					esc = true
-				}
-			case *ssa.Go:
-				esc = true
-			}
-		})
-		L.Check(!esc, "R-C08-RING", "ringBuffer.Push", "stripe = pool.Get(); stripe.Push(item); pool.Put(stripe) on every path, not stored elsewhere", "the stripe escapes the Get/Put window", fn.Pos())
-	})
-	c.Group("R-C08-RING", "ringStripe.Push", func() {
-		fn := P.Fn("ristretto", "ringStripe", "Push")
-		L.Analysed(fname(fn))
-		tb := newTB(fn)
-		pushes := callsTo(fn, "iface:ringConsumer.Push")
-		if len(pushes) != 1 {
-			L.Undecided("R-C08-RING", "ringStripe.Push", "expected one cons.Push call", fn.Pos())
-			return
-		}
-		push := pushes[0].(*ssa.Call)
-		if !Match("fld[data](p[0])", tb.T(push.Call.Args[0]), nil) {
-			L.Undecided("R-C08-RING", "ringStripe.Push", "the batch handed over is not s.data", push.Pos())
-			return
-		}
-		accepted := edgesWhere(fn, tb, tb.T(push).String(), nil, true)
-		ok := len(accepted) > 0
-		for e := range accepted {
-			tgt := e.From.Succs[e.Succ]
-			// first touch of s.data after acceptance must be a store of a fresh make
-			first, _ := reach(Pos{tgt, 0}, func(in ssa.Instruction) bool {
-				if fa, isFA := in.(*ssa.FieldAddr); isFA && fieldName(fa.X.Type(), fa.Field) == "data" {
-					return true
-				}
-				return isReturn(in)
-			}, nil, nil)
-			fa, isFA := first.(*ssa.FieldAddr)
-			if !isFA {
-				ok = false
-				L.Fail("R-C08-RING", "ringStripe.Push", "after the consumer accepted the batch the stripe keeps s.data (it now belongs to the policy goroutine): later appends race with it", instrPos(first))
-				continue
-			}
-			fresh := false
-			for _, r := range *fa.Referrers() {
-				if st, isSt := r.(*ssa.Store); isSt && st.Addr == ssa.Value(fa) {
-					if _, isMk := st.Val.(*ssa.MakeSlice); isMk {
-						fresh = true
-					}
-				}
-			}
-			if !fresh {
-				ok = false
-				L.Fail("R-C08-RING", "ringStripe.Push", "after the consumer accepted the batch s.data is re-used instead of being replaced by a fresh slice: the stripe and the policy goroutine share the backing array", fa.Pos())
-			}
-		}
-		if ok {
-			L.Ok("R-C08-RING", "ringStripe.Push", "accepted batch is replaced by make([]uint64, 0, capa) before any further use", push.Pos())
-		}
-	})
-	c.Group("R-C08-RING", "pool.New", func() {
-		fn := P.Fn("ristretto", "", "newRingBuffer")
-		// the function stored in sync.Pool.New (closure, method value or plain function) must
-		// return what Push type-asserts: a *ringStripe
-		var nf *ssa.Function
-		eachInstr(fn, func(in ssa.Instruction) {
-			st, ok := in.(*ssa.Store)
-			if !ok {
-				return
-			}
-			fa, ok := st.Addr.(*ssa.FieldAddr)
-			if !ok || recvName(fa.X.Type()) != "Pool" || fieldName(fa.X.Type(), fa.Field) != "New" {
-				return
-			}
-			switch v := st.Val.(type) {
-			case *ssa.MakeClosure:
-				nf = v.Fn.(*ssa.Function)
-			case *ssa.Function:
-				nf = v
-			}
-		})
-		if nf == nil {
-			L.Undecided("R-C08-RING", "pool.New", "the function assigned to sync.Pool.New in newRingBuffer was not found", fn.Pos())
-			return
-		}
-		// bound-method wrappers forward to the method
-		if nf.Synthetic != "" {
-			for _, ci := range allCalls(nf) {
-				if sc := staticCallee(ci.Common()); sc != nil && sc.Blocks != nil && isModuleFunc(sc) {
-					nf = sc
-				}
-			}
-		}
-		ok := len(returnsOf(nf)) > 0
-		for _, r := range returnsOf(nf) {
-			v := returnValues(r)[0]
-			mi, isMI := v.(*ssa.MakeInterface)
-			if !isMI || recvName(mi.X.Type()) != "ringStripe" {
-				ok = false
-				continue
-			}
-			if _, isPtr := mi.X.Type().(*types.Pointer); !isPtr {
-				ok = false
-			}
-		}
-		L.Check(ok, "R-C08-RING", "pool.New", "pool.New returns a *ringStripe (the type Push asserts)", "pool.New does not return a *ringStripe: Push's type assertion would panic", nf.Pos())
-	})
+	ringRule(c, "R-C08-RING")
 
 	// ---- R-C08-CONFINED
 	c.Group("R-C08-CONFINED", "Cache.processItems#startTs", func() {
@@ -1055,6 +945,101 @@ func runC08(c *Ctx) {
 		})
 		L.Check(okAlloc && n > 0, "R-C08-NOPANIC", "shards#alloc", "shards allocated with numShards elements", "shards are not allocated with numShards elements", nsm.Pos())
 	})
+	// constant index / constant low bound into a slice: the length must be established on every path
+	c.Group("R-C08-NOPANIC", "constant slice indexes", func() {
+		n := 0
+		for _, fn := range P.SrcFuncs {
+			if fn.Pkg != P.Pkgs["ristretto"] {
+				continue
+			}
+			var tb *TB
+			eachInstr(fn, func(in ssa.Instruction) {
+				var sl ssa.Value
+				var k int64 = -1
+				what := ""
+				switch x := in.(type) {
+				case *ssa.IndexAddr:
+					if c, ok := x.Index.(*ssa.Const); ok && c.Value != nil {
+						sl, k, what = x.X, c.Int64(), "index"
+					}
+				case *ssa.Slice:
+					if c, ok := x.Low.(*ssa.Const); ok && c != nil && c.Value != nil && c.Int64() > 0 {
+						sl, k, what = x.X, c.Int64()-1, "low bound"
+					}
+				}
+				if sl == nil {
+					return
+				}
+				if _, isSlice := sl.Type().Underlying().(*types.Slice); !isSlice {
+					return
+				}
+				if tb == nil {
+					tb = newTB(fn)
+				}
+				S := tb.T(sl).String()
+				cons := fmt.Sprintf("%s#%s[%d]", fname(fn), S, k)
+				n++
+				if strings.HasPrefix(S, "make[") || strings.HasPrefix(S, "slice(new[") {
+					L.OkTrivial("R-C08-NOPANIC", cons, "fresh allocation", in.Pos())
+					return
+				}
+				guard := map[Edge]bool{}
+				for _, b := range fn.Blocks {
+					iff := lastIf(b)
+					if iff == nil {
+						continue
+					}
+					t := tb.T(iff.Cond)
+					tEdge, fEdge := 0, 1
+					for t.Op == "not" {
+						t = t.Args[0]
+						tEdge, fEdge = fEdge, tEdge
+					}
+					if len(t.Args) != 2 {
+						continue
+					}
+					lenFirst := t.Args[0].String() == "call[len]("+S+")" && t.Args[1].Op == "c"
+					lenSecond := t.Args[1].String() == "call[len]("+S+")" && t.Args[0].Op == "c"
+					if !lenFirst && !lenSecond {
+						continue
+					}
+					cst := t.Args[1]
+					if lenSecond {
+						cst = t.Args[0]
+					}
+					var nn int64
+					if _, err := fmt.Sscanf(cst.Sym, "%d", &nn); err != nil {
+						continue
+					}
+					switch {
+					case t.Op == "eq" && nn > k:
+						guard[Edge{b, tEdge}] = true
+					case t.Op == "eq" && nn == 0 && k == 0:
+						guard[Edge{b, fEdge}] = true
+					case t.Op == "ne" && nn > k:
+						guard[Edge{b, fEdge}] = true
+					case t.Op == "ne" && nn == 0 && k == 0:
+						guard[Edge{b, tEdge}] = true
+					case t.Op == "lt" && lenSecond && nn >= k: // n < len
+						guard[Edge{b, tEdge}] = true
+					case t.Op == "lt" && lenFirst && nn >= k+1: // !(len < n)
+						guard[Edge{b, fEdge}] = true
+					case t.Op == "le" && lenSecond && nn >= k+1: // n <= len
+						guard[Edge{b, tEdge}] = true
+					case t.Op == "le" && lenFirst && nn >= k: // !(len <= n)
+						guard[Edge{b, fEdge}] = true
+					}
+				}
+				bad, path := reach(entryPos(fn), isInstr(in), nil, cutSet(guard))
+				if bad != nil {
+					L.Undecided("R-C08-NOPANIC", cons, fmt.Sprintf("constant %s %d into %s is reachable without a test establishing len > %d (block path %s): index out of range when the slice is shorter", what, k, S, k, pathString(path)), in.Pos())
+					return
+				}
+				L.Ok("R-C08-NOPANIC", cons, fmt.Sprintf("guarded by a length test (len > %d) on every path", k), in.Pos())
+			})
+		}
+		L.OkTrivial("R-C08-NOPANIC", "constant slice indexes", fmt.Sprintf("%d constant index/low-bound site(s) in the package", n), 0)
+	})
 	// KeyToHash covers the Key constraint (otherwise its default arm panics inside Get/Set/Del)
 	c.Group("R-C08-NOPANIC", "z.KeyToHash", func() {
 		sub := &Ctx{L: newLedger("C08"), P: P, Tier: c.Tier}
@@ -1145,4 +1130,161 @@ func handshakeRule(c *Ctx, ruleID string) {
 			L.Check(instrDominates(send, recv) && bad == nil, ruleID, st.recv+"."+st.name+"#stopper", "stop <- …; <-done on every path", "after signalling stop a path does not wait for done", send.Pos())
 		})
 	}
+}
+
+// ringRule: a ring stripe is used by one goroutine at a time (pool Get ... Put on every path, not
+// stored elsewhere) and a batch handed to the policy is never written again (replaced by a fresh
+// slice before any further use). Shared by C08 (data race) and C09 (the access stream that feeds the
+// frequency estimates is not corrupted).
+func ringRule(c *Ctx, ruleID string) {
+	L, P := c.L, c.P
+	c.Group(ruleID, "ringBuffer.Push", func() {
+		fn := P.Fn("ristretto", "ringBuffer", "Push")
+		L.Analysed(fname(fn))
+		gets := callsTo(fn, "sync.Pool.Get")
+		puts := callsTo(fn, "sync.Pool.Put")
+		if len(gets) != 1 || len(puts) < 1 {
+			L.Fail(ruleID, "ringBuffer.Push", "stripe is not taken from and returned to the pool", fn.Pos())
+			return
+		}
+		tb := newTB(fn)
+		isPut := func(in ssa.Instruction) bool {
+			cl, ok := in.(*ssa.Call)
+			return ok && calleeName(&cl.Call) == "sync.Pool.Put" && Contains(tb.T(cl.Call.Args[1]), tb.T(gets[0].(*ssa.Call)))
+		}
+		bad, _ := mustPass(after(gets[0].(ssa.Instruction)), isPut, nil)
+		if bad != nil {
+			L.Fail(ruleID, "ringBuffer.Push", "a path returns without putting the stripe back", instrPos(bad))
+			return
+		}
+		// the stripe does not escape elsewhere
+		esc := false
+		eachInstr(fn, func(in ssa.Instruction) {
+			switch x := in.(type) {
+			case *ssa.Store:
+				if Contains(tb.T(x.Val), tb.T(gets[0].(*ssa.Call))) {
+					esc = true
+				}
+			case *ssa.Go:
+				esc = true
+			}
+		})
+		L.Check(!esc, ruleID, "ringBuffer.Push", "stripe = pool.Get(); stripe.Push(item); pool.Put(stripe) on every path, not stored elsewhere", "the stripe escapes the Get/Put window", fn.Pos())
+	})
+	c.Group(ruleID, "ringStripe.Push", func() {
+		fn := P.Fn("ristretto", "ringStripe", "Push")
+		L.Analysed(fname(fn))
+		tb := newTB(fn)
+		pushes := callsTo(fn, "iface:ringConsumer.Push")
+		if len(pushes) != 1 {
+			L.Undecided(ruleID, "ringStripe.Push", "expected one cons.Push call", fn.Pos())
+			return
+		}
+		push := pushes[0].(*ssa.Call)
+		if !Match("fld[data](p[0])", tb.T(push.Call.Args[0]), nil) {
+			L.Undecided(ruleID, "ringStripe.Push", "the batch handed over is not s.data", push.Pos())
+			return
+		}
+		accepted := edgesWhere(fn, tb, tb.T(push).String(), nil, true)
+		ok := true
+		var starts []Pos
+		for e := range accepted {
+			starts = append(starts, Pos{e.From.Succs[e.Succ], 0})
+		}
+		if len(starts) == 0 {
+			// the consumer's verdict is not examined: every continuation may be the accepted one
+			starts = append(starts, after(push))
+		}
+		for _, start := range starts {
+			// first touch of s.data after acceptance must be a store of a fresh make
+			first, _ := reach(start, func(in ssa.Instruction) bool {
+				if fa, isFA := in.(*ssa.FieldAddr); isFA && fieldName(fa.X.Type(), fa.Field) == "data" {
+					return true
+				}
+				return isReturn(in)
+			}, nil, nil)
+			fa, isFA := first.(*ssa.FieldAddr)
+			if !isFA {
+				ok = false
+				L.Fail(ruleID, "ringStripe.Push", "after the consumer accepted the batch the stripe keeps s.data (it now belongs to the policy goroutine): later appends race with it", instrPos(first))
+				continue
+			}
+			fresh := false
+			for _, r := range *fa.Referrers() {
+				if st, isSt := r.(*ssa.Store); isSt && st.Addr == ssa.Value(fa) {
+					if _, isMk := st.Val.(*ssa.MakeSlice); isMk {
+						fresh = true
+					}
+				}
+			}
+			if !fresh {
+				ok = false
+				L.Fail(ruleID, "ringStripe.Push", "after the consumer accepted the batch s.data is re-used instead of being replaced by a fresh slice: the stripe and the policy goroutine share the backing array", fa.Pos())
+			}
+		}
+		// whatever the verdict, the stripe starts over: a refused batch is dropped (the consumer has already
+		// counted it as dropped), never kept and offered again
+		isDataStore := func(in ssa.Instruction) bool {
+			st, isSt := in.(*ssa.Store)
+			if !isSt {
+				return false
+			}
+			fa, isFA := st.Addr.(*ssa.FieldAddr)
+			return isFA && fieldName(fa.X.Type(), fa.Field) == "data"
+		}
+		if r, path := mustPass(after(push), isDataStore, nil); r != nil {
+			ok = false
+			L.Fail(ruleID, "ringStripe.Push", "after the hand-over attempt a path returns without re-assigning s.data (block path "+pathString(path)+"): a refused batch stays in the stripe and is offered again with the next item, so the same accesses are counted (as dropped or kept) more than once", instrPos(r))
+		}
+		if ok {
+			L.Ok(ruleID, "ringStripe.Push", "accepted batch is replaced by make([]uint64, 0, capa) before any further use; the stripe starts over on every path after the attempt", push.Pos())
+		}
+	})
+	c.Group(ruleID, "pool.New", func() {
+		fn := P.Fn("ristretto", "", "newRingBuffer")
+		// the function stored in sync.Pool.New (closure, method value or plain function) must
+		// return what Push type-asserts: a *ringStripe
+		var nf *ssa.Function
+		eachInstr(fn, func(in ssa.Instruction) {
+			st, ok := in.(*ssa.Store)
+			if !ok {
+				return
+			}
+			fa, ok := st.Addr.(*ssa.FieldAddr)
+			if !ok || recvName(fa.X.Type()) != "Pool" || fieldName(fa.X.Type(), fa.Field) != "New" {
+				return
+			}
+			switch v := st.Val.(type) {
+			case *ssa.MakeClosure:
+				nf = v.Fn.(*ssa.Function)
+			case *ssa.Function:
+				nf = v
+			}
+		})
+		if nf == nil {
+			L.Undecided(ruleID, "pool.New", "the function assigned to sync.Pool.New in newRingBuffer was not found", fn.Pos())
+			return
+		}
+		// bound-method wrappers forward to the method
+		if nf.Synthetic != "" {
+			for _, ci := range allCalls(nf) {
+				if sc := staticCallee(ci.Common()); sc != nil && sc.Blocks != nil && isModuleFunc(sc) {
+					nf = sc
+				}
+			}
+		}
+		ok := len(returnsOf(nf)) > 0
+		for _, r := range returnsOf(nf) {
+			v := returnValues(r)[0]
+			mi, isMI := v.(*ssa.MakeInterface)
+			if !isMI || recvName(mi.X.Type()) != "ringStripe" {
+				ok = false
+				continue
+			}
+			if _, isPtr := mi.X.Type().(*types.Pointer); !isPtr {
+				ok = false
+			}
+		}
+		L.Check(ok, ruleID, "pool.New", "pool.New returns a *ringStripe (the type Push asserts)", "pool.New does not return a *ringStripe: Push's type assertion would panic", nf.Pos())
+	})
 }
